@@ -214,11 +214,12 @@ func (t *traverser) start() {
 			return
 		}
 		if t.budget != nil {
-			t.budget.LinkBudget--
+			// the root block counts against the link budget like any other block
 			if t.budget.LinkBudget <= 0 {
 				t.writeDone(&traversal.ErrBudgetExceeded{BudgetKind: "link", Link: t.root})
 				return
 			}
+			t.budget.LinkBudget--
 		}
 		nd, err := t.linkSystem.Load(ipld.LinkContext{Ctx: t.ctx}, t.root, ns)
 		if err != nil {
